@@ -886,6 +886,17 @@ static long long handle_one(const J &cmd, W &w) {
         cif_packet_tp *p = nullptr; bool want = cmd.geti("want", 1) != 0;
         std::string ph = cmd.gets("ph");
         if (!ph.empty() && find(pkts, ph)) p = pkts[ph];
+        // "supply": the caller hands in a packet of its own to be filled: "empty" (no items) or "foreign" (one item that is
+        // not in the loop); every item of the loop must be there (and found by name) afterwards
+        std::string supply = cmd.gets("supply", "");
+        if (p == nullptr && want && !supply.empty()) {
+            std::vector<ustr> store; std::vector<UChar *> ptrs;
+            if (supply == "foreign") store.push_back(u"_zz_supplied");
+            for (auto &x : store) ptrs.push_back(const_cast<UChar *>(U(x)));
+            ptrs.push_back(nullptr);
+            if (cif_packet_create(&p, ptrs.data()) != CIF_OK) p = nullptr;
+            w.kvs("supply", supply.c_str());
+        }
         rc = FW(cif_pktitr_next_packet(it, want ? &p : nullptr));
         if (rc == CIF_OK && want) { w.key("pkt"); dump_packet(w, p); }
         if (!ph.empty()) { if (p) pkts[ph] = p; } else cif_packet_free(p);
